@@ -71,6 +71,10 @@ def _ro_valid(cmd, pr):
     return True
 
 
+def _ident(name):
+    return "".join(ch if ch.isalnum() else "_" for ch in str(name))
+
+
 def _cmd_ver(cmd):
     """the version tag file mode writes into cmd (`simworker NAME vN`): stands for every key the model has no word for"""
     import re
@@ -277,6 +281,9 @@ class HookScript(object):
 
     def make(self, wname, hname):
         def hook(watcher=None, arbiter=None, hook_name=None, **kw):
+            # (the watcher circus calls the hook FOR: with hooks shared between watchers it is not the one the hook
+            #  was configured on)
+            called_for = getattr(watcher, "name", None) or wname
             out = self.outcomes.get((wname, hname), "true")
             if isinstance(out, list):
                 out = out.pop(0) if len(out) > 1 else out[0]
@@ -284,7 +291,7 @@ class HookScript(object):
             if slow:
                 out = out[:-5]
                 self.sim.loop.vnow += 0.04          # user code that takes its time (40 ms)
-            self.sim.rec("hook", w=wname, x=hname, r=out, p=kw.get("pid") or kw.get("process_pid") or 0)
+            self.sim.rec("hook", w=called_for, x=hname, r=out, p=kw.get("pid") or kw.get("process_pid") or 0)
             if out == "raise":
                 raise RuntimeError("hook %s scripted to raise" % hname)
             return out == "true"
@@ -373,13 +380,37 @@ class Sim(object):
                     "singleton = %s" % sp["singleton"], "priority = %d" % sp["priority"],
                     "autostart = %s" % sp["autostart"], "respawn = %s" % sp["respawn"],
                     "stop_signal = %d" % sp["stop_signal"], "stop_children = %s" % sp["stop_children"],
-                    "max_retry = %d" % sp["max_retry"], "send_hup = %s" % sp["send_hup"], ""]
+                    "max_retry = %d" % sp["max_retry"], "send_hup = %s" % sp["send_hup"]]
+            for hname, (outcome, ignore) in sorted((sp.get("hooks") or {}).items()):
+                out.append("hooks.%s = %s.h_%s_%s, %s" % (hname, sp.get("_hookmod", "simhooks"), _ident(sp["name"]), hname,
+                                                       bool(ignore)))
+            out.append("")
         return "\n".join(out)
+
+    def _write_hook_module(self, specs):
+        """hooks in a configuration file are dotted names: a module, generated next to the ini file, whose functions
+        hand over to the scripted hooks of this Sim"""
+        if not any(sp.get("hooks") for sp in specs):
+            return
+        mod = "simhooks_%d" % id(self)
+        lines = ["from harness import simdaemon", ""]
+        for sp in specs:
+            sp["_hookmod"] = mod
+            for hname, (outcome, ignore) in sorted((sp.get("hooks") or {}).items()):
+                self.hook_outcomes[(sp["name"], hname)] = outcome
+                lines += ["def h_%s_%s(*a, **k):" % (_ident(sp["name"]), hname),
+                          "    return simdaemon.CUR.hooks.make(%r, %r)(*a, **k)" % (sp["name"], hname), ""]
+        with open(_real_os.path.join(self._tmpdir, mod + ".py"), "w") as fh:
+            fh.write("\n".join(lines))
+        if self._tmpdir not in sys.path:
+            sys.path.insert(0, self._tmpdir)
+        self._hookmod = mod
 
     def write_file(self, specs, check_delay=None):
         """check_delay: what the file's [circus] section says from now on (None = what the arbiter was booted with);
         a [circus] section that differs from the boot-time one makes every reloadconfig restart everything"""
         self.file_specs = [dict(WATCHER_DEFAULTS, **dict({"ver": 1}, **sp)) for sp in specs]
+        self._write_hook_module(self.file_specs)
         self.file_check_delay = self.check_delay if check_delay is None else check_delay
         with open(self.config_file, "w") as fh:
             fh.write(self.render_ini(self.file_specs, self.file_check_delay, self.warmup_delay))
@@ -940,3 +971,6 @@ class Sim(object):
             if self._tmpdir:
                 import shutil
                 shutil.rmtree(self._tmpdir, ignore_errors=True)
+                if self._tmpdir in sys.path:
+                    sys.path.remove(self._tmpdir)
+                sys.modules.pop(getattr(self, "_hookmod", ""), None)
